@@ -50,11 +50,11 @@ def gen_cases(tier, seed):
     for s in cl.FIXED_SOURCES:
         cases.append("S " + cl.hx(s))
         n_fixed += 1
-    srcs = cl.source_cases(rng, 40000 if tier == "thorough" else 4000)
+    srcs = cl.source_cases(rng, 120000 if tier == "thorough" else 4000)
     for s in srcs:
         cases.append("S " + cl.hx(s))
     # programs built after another program (non-empty initial state)
-    after = cl.FIXED_SOURCES + srcs[: (4000 if tier == "thorough" else 500)]
+    after = cl.FIXED_SOURCES + srcs[: (20000 if tier == "thorough" else 500)]
     for k, s in enumerate(after):
         cases.append("A %s;%s" % (cl.hx(PREFIXES[k % len(PREFIXES)]), cl.hx(s)))
     return cases
